@@ -38,7 +38,7 @@ CHECKS.update({
                  "inputs, not proved; bytes.Reader/encoding/binary are exercised, not modelled."),
     },
     "C06": {
-        "families": ("vaa", "processor"),
+        "families": ("vaa", "processor", "explorer"),
         "level": "proof",
         "technique": "Lean 4 iff-theorem (verifySignatures = true <-> Valid) for lists of any length with ecrecover as an abstract oracle, tied by differential execution of VerifySignatures",
         "text": ("verify_iff proves, for guardian and signature lists of any length and any recover oracle, that the model of VerifySignatures "
@@ -191,7 +191,7 @@ CHECKS.update({
                  "complete ack line was received), driver, Lean kernel; badger WAL/mmap and the page cache are not modelled."),
     },
     "C17": {
-        "families": ("reobserve",),
+        "families": ("reobserve", "processor"),
         "level": "proof",
         "technique": "Lean 4 theorems over all histories (induction with a window invariant) for a model of the dispatcher cache/purge and the non-blocking queues, window and ticker extracted from source; tied by running the real handleReobservationRequests loop under a harness-owned clock/ticker channel and the real PostObservationRequest",
         "text": ("For every window, cache, history and queue state: a request goes only to the watcher of chain_id mod 2^16, exactly when its "
